@@ -228,6 +228,34 @@ func ruleR9() *Rule {
 					why = append(why, "Close does not drop a reference")
 				}
 				c.check(okc, "close-via-decref", c.fpos(cl), "(*Segment).Close drops one reference through the counting routine and releases nothing itself", strings.Join(why, "; "))
+				// ... and does so on every path: a Close that returns without dropping its
+				// holder's reference leaves the count above zero for ever (mapping never released)
+				trd := func(in ssa.Instruction, ev uint64, _ bool) []uint64 {
+					if cs, ok := in.(ssa.CallInstruction); ok {
+						if f := staticCallee(cs); f != nil && reachRel[f] && f != rel {
+							if ev&1 != 0 {
+								return []uint64{ev | 2}
+							}
+							return []uint64{ev | 1}
+						}
+					}
+					return nil
+				}
+				pad := newPathAnalysis(cl, trd)
+				pad.run(0)
+				every, twice := true, false
+				for _, ret := range returnsOf(cl) {
+					for _, ev := range pad.statesBefore(ret) {
+						if ev&1 == 0 {
+							every = false
+						}
+						if ev&2 != 0 {
+							twice = true
+						}
+					}
+				}
+				c.check(every && !twice, "close-drops-exactly-one", c.fpos(cl), "every path through (*Segment).Close drops exactly one reference",
+					fmt.Sprintf("a path through Close drops no reference (%v) or more than one (%v): with several holders the count never reaches zero / reaches it early", !every, twice))
 			}
 
 			// (e) Open starts the count at 1
